@@ -62,9 +62,36 @@ def passes (s : HSt) (c : Chan) (ls : Nat → List Byte) : Nat → HSt
   | n + 1 => passSt (passes s c ls n) c (ls n) .none
 
 /-- the latest time by which a message born at `birth` is due for its expiring attempt on channel `c`:
-`birth + (⌊√lifetime⌋ + skip)²` -/
-def expiryBound (lifetime birth : Int) (c : Chan) : Int :=
-  let L : Int := (Nat.sqrt lifetime.toNat : Nat)
-  birth + (L + chanskip c) * (L + chanskip c)
+`birth + (L + skip)²` where `L = ⌊√lifetime⌋` -/
+def expiryBound (L birth : Int) (c : Chan) : Int := birth + (L + chanskip c) * (L + chanskip c)
+
+/-- every scheduled channel entry is due by the expiry bound of its message, or is already due -/
+def DueBy (L : Int) (s : HSt) : Prop :=
+  ∀ c, ∀ e ∈ (s.q c).toList, ∀ m, s.find e.id = some m → e.dt ≤ expiryBound L m.birth c ∨ e.dt ≤ s.clock
+
+/-- the invariant bundle of a fault-free daemon life -/
+def DInv (L : Int) (s : HSt) : Prop := WF s ∧ Tracked s ∧ DueBy L s
+
+/-- the steps of a fault-free daemon life with a monotone clock: time advances, wake-up computations, ALRM,
+passes on either channel, clean restarts -/
+inductive BStep where
+  | tick (d : Nat)
+  | wake
+  | alrm
+  | pass (c : Chan) (letters : List Byte)
+  | restart
+  deriving Repr
+
+def BStep.steps (s : HSt) : BStep → List Step
+  | .tick d => [.clock (s.clock + d)]
+  | .wake => [.wake]
+  | .alrm => [.alrm]
+  | .pass c l => [.pass c l .none]
+  | .restart => [.fin, .load]
+
+def runB (s : HSt) (l : List BStep) : HSt := l.foldl (fun s x => run s (x.steps s)) s
+
+/-- every pass of the history is answered with K, Z or D only -/
+def allKZD (l : List BStep) : Prop := ∀ x ∈ l, ∀ c letters, x = .pass c letters → lettersKZD letters
 
 end Nq.Spec.SchedHist
